@@ -30,6 +30,10 @@ NOT_DECIDED = [
 ]
 
 
+def nsym_le1(sym):
+    return len(MOD[sym]) <= 1
+
+
 def flat(axes):
     return tuple(x for g in axes for x in ((g,) if isinstance(g, int) else g))
 
@@ -88,6 +92,48 @@ def h_fuse_hard(V, sym, nd, lt, axes, trans):
         for pos in range(len(order)):
             V.check('restored-block-sectors-exist-on-the-original-legs',
                     Or(*[And(deep_eq(leg_charge(g_[0], pos, nsym), leg_charge(w[0], pos, nsym)), g_[1][pos] == w[1][pos]) for w in want]) if want else False)
+
+
+def h_unfuse_lazy(V, sym, nd, lt, axes, perm, which):
+    """
+    unfuse_legs on a fused tensor that carries a pending (lazy) transposition: the unfused legs appear at the positions of the
+    fused legs in the LOGICAL order, each group restored in its fused order -- whatever the native order of the fused legs
+    """
+    nsym = len(MOD[sym])
+    cfg = make_config(V, sym)
+    a = mk(V, sym, nd, lt, None, stem='a', config=cfg)
+    va = view(a, sym)
+    f = V.call(a.fuse_legs, axes=axes, mode='hard')
+    ft = V.call(f.transpose, axes=perm)
+    gs = [groups(axes)[p] for p in perm]
+    fused_pos = tuple(i for i, g in enumerate(gs) if len(g) > 1)
+    sel = fused_pos if which == 'all' else (fused_pos[which],)
+    u = V.call(ft.unfuse_legs, axes=sel)
+    check_wf(V, u, sym, 'wf(unfused)')
+    vu = view(u, sym)
+    # expected logical legs: selected groups expanded in place, the others kept as single (still fused) legs
+    vf = view(ft, sym)
+    exp_s, exp_hfs = [], []
+    for i, g in enumerate(gs):
+        if i in sel:
+            exp_s += [va['s'][k] for k in g]
+            exp_hfs += [va['hfs'][k] for k in g]
+        else:
+            exp_s.append(vf['s'][i])
+            exp_hfs.append(vf['hfs'][i])
+    V.check('unfused-legs-at-the-logical-positions-of-the-fused-legs', deep_eq(vu['s'], tuple(exp_s)) and vu['hfs'] == tuple(exp_hfs)
+            and deep_eq(vu['n'], va['n']))
+    if which == 'all':
+        order = tuple(k for g in gs for k in g)
+        want = [(tuple(x for k in order for x in leg_charge(b[0], k, nsym)), tuple(b[1][k] for k in order)) for b in va['blocks']]
+        got = [(g_[0], g_[1]) for g_ in vu['blocks']]
+        V.check('every-original-block-is-restored-with-its-shape',
+                And(*[Or(*[And(deep_eq(w[0], g_[0]), deep_eq(w[1], g_[1])) for g_ in got]) for w in want]) if want else True)
+    # and it is the same observable tensor as unfusing after materialising the transposition
+    um = V.call(V.call(ft.consume_transpose).unfuse_legs, axes=sel)
+    vm = view(um, sym)
+    V.check('lazy-and-materialised-unfuse-agree', deep_eq(vu['s'], vm['s']) and vu['hfs'] == vm['hfs']
+            and same_block_set(vu['blocks'], vm['blocks']))
 
 
 def h_fuse_meta(V, sym, nd, lt, axes, trans):
@@ -242,4 +288,10 @@ def units(tier):
                         continue
                     U.append(('h_fuse_nested', f"{sym},lt={lt},{m1}+{m2}", dict(sym=sym, lt=lt, mode1=m1, mode2=m2)))
         U.append(('h_fuse_rejects', sym, dict(sym=sym)))
+        for (nd, axes, perm) in [(5, ((0, 1), (2, 3, 4)), (1, 0)), (5, ((0, 1, 2), (3, 4)), (1, 0)), (5, ((0, 1), 2, (3, 4)), (2, 0, 1)),
+                                 (4, ((0, 1), (2, 3)), (1, 0)), (4, (0, (1, 2, 3)), (1, 0))]:
+            for lt in (1,) + ((2,) if th and nsym_le1(sym) else ()):
+                for which in ('all', 0):
+                    U.append(('h_unfuse_lazy', f"{sym},nd={nd},axes={axes},perm={perm},lt={lt},which={which}",
+                              dict(sym=sym, nd=nd, lt=lt, axes=axes, perm=perm, which=which)))
     return U
